@@ -289,6 +289,11 @@ def solve_check(kind, case, rec):
     sc = max(float(np.abs(ref).max()), 1e-12)
     rec.close("reduced-system", float(np.abs(du[dof1] - ref).max()) / sc, 1e-9)
     rec.close("prescribed-increments", float(np.abs(du[dof0] - (e0 - u[dof0])).max()), 0.0)
+    # the tools-level wrapper solves K dx = b for a right-hand side b (here b = -r) and returns the increments split per field
+    if r is not None and case["seed"] % 3 == 0:
+        parts = fem.tools.solve(K, -r, fc, dof0, dof1, fc.offsets, ext0)
+        rec.require("tools.solve:one-array-per-field", len(parts) == len(fc.fields), len(parts))
+        rec.close("tools.solve=solve.solve", float(np.abs(np.concatenate([np.asarray(p_).ravel() for p_ in parts]) - du).max()), 1e-12)
     # one partitioned system solved for several load cases (linear model without re-assembly): solve() leaves it unchanged
     if case["seed"] % 2 == 0:
         for rep in range(2):
@@ -332,7 +337,14 @@ def scalar_check(kind, case, rec):
     bounds = dict(left=fem.Boundary(T, fx=0.0, value=va), right=fem.Boundary(T, fx=1.0, value=vb))
     dof0, dof1 = fem.dof.partition(fc, bounds)
     ext0 = fem.dof.apply(fc, bounds, dof0)
-    res = fem.newtonrhapson(x0=fc, kwargs=dict(umat=fem.Laplace(), grad=True, add_identity=False, sym=False), dof0=dof0, dof1=dof1, ext0=ext0, verbose=False)
+    import contextlib
+    import io
+
+    # the progress report (verbose) must not change what is computed
+    verbose = case["seed"] % 2 == 1
+    with contextlib.redirect_stdout(io.StringIO()) as out:
+        res = fem.newtonrhapson(x0=fc, kwargs=dict(umat=fem.Laplace(), grad=True, add_identity=False, sym=False), dof0=dof0, dof1=dof1, ext0=ext0, verbose=verbose)
+    rec.require("verbose-report-iff-requested", bool(out.getvalue().strip()) == verbose, out.getvalue()[:80])
     Tv = res.x[0].values.ravel()
     x = P[:, 0]
     attached = np.zeros(len(P), bool)
